@@ -395,6 +395,60 @@ func checkOverride(cfg *nfpm.Config, vs *vlist) {
 	}
 }
 
+// checkC13Packages builds every format and reports payload entries that only an entry
+// addressed to ANOTHER packager denotes.
+func checkC13Packages(c *BuildCase) []Violation {
+	var vs vlist
+	err := c.withRoot(func(root string) error {
+		b := buildAll(c, root, "C13", &vs)
+		for _, f := range c.formats() {
+			d := b.decoded[f]
+			if d == nil {
+				continue
+			}
+			own := b.plans[f]
+			foreign := map[string]string{}
+			for _, g := range AllFormats {
+				if g == f {
+					continue
+				}
+				// what the entries tagged for g denote (planned on their own so collisions cannot hide them)
+				for i, e := range c.Contents {
+					if e.Packager != g {
+						continue
+					}
+					solo := *c
+					solo.Contents = []Entry{c.Contents[i]}
+					solo.Contents[0].Packager = ""
+					pf := "rpm" // rpm knows every type
+					plan, err := Plan(&solo, pf)
+					if err != nil {
+						continue
+					}
+					for p, n := range plan {
+						if n.Implied {
+							continue
+						}
+						if _, mine := own[p]; !mine {
+							foreign[p] = fmt.Sprintf("contents[%d] (type %q, packager %s)", i, e.Type, g)
+						}
+					}
+				}
+			}
+			for _, pe := range d.Payload {
+				if who, ok := foreign[pe.Abs]; ok {
+					vs.add("C13.foreign-entry-in-package", f, "%s is in the %s package but only %s denotes it", pe.Abs, f, who)
+				}
+			}
+		}
+		return nil
+	})
+	if err != nil {
+		panic(err)
+	}
+	return vs
+}
+
 func renderConfigYAML(cfg *nfpm.Config) string {
 	b, err := yaml.Marshal(cfg)
 	if err != nil {
@@ -410,6 +464,14 @@ func baseInfo() nfpm.Info {
 func TestC13(t *testing.T) {
 	st := newStats("C13")
 	defer st.Flush()
+	var prcase struct {
+		PC *BuildCase `json:"package_case"`
+	}
+	if replayCase(&prcase) && prcase.PC != nil {
+		st.Record(&prcase, true, "replay")
+		st.Report(t, &prcase, checkC13Packages(prcase.PC))
+		return
+	}
 	var rc OverrideCase
 	if replayCase(&rc) {
 		cfg, err := nfpm.ParseWithEnvMapping(strings.NewReader(rc.YAML), noEnv)
@@ -509,6 +571,46 @@ func TestC13(t *testing.T) {
 		}
 		st.Record(oc, nset > 0, labels...)
 		st.Report(rt, oc, vs)
+	})
+	// (2b) package leg: entries addressed to one packager never appear in another format's package,
+	// with and without override blocks (Config.Get filters contents only when an override block exists)
+	var prc BuildCase
+	_ = prc
+	rapid.Check(t, func(rt *rapid.T) {
+		if rapid.IntRange(0, 9).Draw(rt, "package-leg") > 0 {
+			return // one case in ten: builds are far more expensive than merges
+		}
+		o := c01Opts
+		o.maxEntries = 6
+		c := genBuildCase(rt, o)
+		for i := range c.Tree {
+			if c.Tree[i].Size > 5000 {
+				c.Tree[i].Size %= 5000
+			}
+		}
+		// tag more entries, including rpm-only and ordinary types alike
+		for i := range c.Contents {
+			if c.Contents[i].Packager == "" && c.Contents[i].Type != "dir" && rapid.IntRange(0, 1).Draw(rt, fmt.Sprintf("tag%d", i)) == 0 {
+				c.Contents[i].Packager = rapid.SampledFrom(AllFormats).Draw(rt, fmt.Sprintf("tagfmt%d", i))
+			}
+		}
+		ov := map[string]any{}
+		for _, f := range AllFormats {
+			if rapid.IntRange(0, 2).Draw(rt, "pkg.ov."+f) == 0 {
+				ov[f] = map[string]any{"depends": []any{"ovdep-" + f}}
+			}
+		}
+		if len(ov) > 0 {
+			c.Extra = map[string]any{"overrides": ov}
+		}
+		tagged := 0
+		for _, e := range c.Contents {
+			if e.Packager != "" {
+				tagged++
+			}
+		}
+		st.Record(c, tagged > 0, "package-leg", fmt.Sprintf("override-blocks:%d", len(ov)))
+		st.Report(rt, map[string]any{"package_case": c}, checkC13Packages(c))
 	})
 	// (3) validation rejects override blocks for unknown packagers, accepts known ones
 	for _, k := range []string{"deb", "rpm", "apk", "archlinux", "ipk", "foo", "DEB", "pacman", ""} {
